@@ -488,7 +488,12 @@ class HyReader(Reader):
             if fstring_mode:
                 # handle braces in f-strings
                 if c == "{":
-                    if "r" not in prefix and s[-3:] == ["\\", "N", "{"]:
+                    if (
+                        "r" not in prefix
+                        and s[-3:] == ["\\", "N", "{"]
+                        # The backslash must not itself be escaped.
+                        and (len(s) - 2 - len("".join(s[:-2]).rstrip("\\"))) % 2
+                    ):
                         # ignore "\N{...}"
                         in_named_escape = True
                     elif not self.peek_and_getc("{"):
